@@ -315,6 +315,7 @@ func Judge(r *Run) *Judged {
 	}
 	judgeHang(r, j)
 	judgeStoreWrites(r, j, by)
+	judgeIncompleteWrites(r, j)
 	judgeInvalidation(r, j, cl)
 	judgeExpectedHits(r, j, cl, by)
 	judgeReplaced(r, j, cl, by)
@@ -1329,6 +1330,9 @@ func (r *Run) validationChain(B *OResp, before uint64) (hdr http.Header, last *O
 		if (et == "" && lm == "") || inm != et || ims != lm {
 			continue // a validation request carries exactly the stored validators
 		}
+		if noStoreExchange(o) {
+			continue // nothing of such an exchange is written to the store (C06): it freshens nothing
+		}
 		chain = append(chain, o)
 		hop := canonHopByHop(o.Header)
 		for k, v := range o.Header {
@@ -1350,6 +1354,11 @@ func (r *Run) validationChain(B *OResp, before uint64) (hdr http.Header, last *O
 		}
 	}
 	return hdr, last, chain
+}
+
+// noStoreExchange: the request or the response says no-store.
+func noStoreExchange(o *OResp) bool {
+	return parseCC(o.Req.Header).has("no-store") || parseCC(o.Header).has("no-store")
 }
 
 func firstNonEmpty(a, b string) string {
@@ -1641,11 +1650,72 @@ func judgeStoreWrites(r *Run, j *Judged, by map[int]*OResp) {
 					Sig: "forbidden-store:" + sig})
 			}
 		}
+		// nothing of a response is written when its request or the response itself carries no-store: that holds for
+		// the 304s whose fields a freshened entry contains as well (their status is what a 304 is, not a reason)
+		if e == nil || !r.tainted(e) {
+			for _, sid := range s.SIDs {
+				l := by[sid]
+				if l == nil || !l.Is304 || l.Bare || l.SeqResp > s.Seq {
+					continue
+				}
+				why := ""
+				switch {
+				case parseCC(l.Req.Header).has("no-store"):
+					why = "request no-store"
+				case parseCC(l.Header).has("no-store"):
+					why = "response no-store"
+				}
+				if why != "" {
+					j.Violations = append(j.Violations, Violation{Prop: "C06", Rule: "forbidden-store", Seq: s.Seq, Client: clientOf(e), Op: s.OwnerOp,
+						Msg: fmt.Sprintf("header fields of the 304 sid=%d (%s %s, request cc=%q, response cc=%q) were written to the store under key %q although nothing of it may be stored: %s", l.SID, l.Req.Method, l.Req.URL, l.Req.Header.Get("Cache-Control"), l.Header.Get("Cache-Control"), s.Key, why),
+						Sig: "forbidden-store:" + why + " (304)"})
+				}
+			}
+		}
 		// hop-by-hop material never reaches the store
 		j.count("C05", "hop-by-hop-leak")
 		if hopMark.Match(s.Val) {
 			j.Violations = append(j.Violations, Violation{Prop: "C05", Rule: "hop-by-hop-leak", Seq: s.Seq, Client: clientOf(e), Op: s.OwnerOp,
 				Msg: fmt.Sprintf("a hop-by-hop field value reached the store under key %q", s.Key), Sig: "hop-by-hop-leak:store"})
+		}
+	}
+}
+
+// judgeIncompleteWrites: a response whose body could not be read completely leaves no trace in the store - not
+// an entry, and not a record in the variant index either.
+func judgeIncompleteWrites(r *Run, j *Judged) {
+	for _, u := range r.Calls {
+		o := u.Resp
+		if o == nil || o.Complete || o.Is304 || o.Req.Method != "GET" || u.SeqEnd == 0 {
+			continue
+		}
+		e := r.exchFor(u.Owner, u.OwnerOp)
+		if e == nil || r.tainted(e) {
+			continue
+		}
+		// the store writes of this call's goroutine lineage between its answer and its next origin call (or its end)
+		next := ^uint64(0)
+		for _, v := range r.Calls {
+			if v != u && v.Gor == u.Gor && v.SeqStart > o.SeqResp && v.SeqStart < next {
+				next = v.SeqStart
+			}
+		}
+		j.count("C06", "forbidden-store")
+		for _, s := range r.Store {
+			if s.Kind != "set" || s.Seq < o.SeqResp || s.Seq > next || !strings.HasPrefix(s.Gor, u.Gor) {
+				continue
+			}
+			if u.Fg && e.SeqRet != 0 && s.Seq > e.SeqRet {
+				continue
+			}
+			kind := "entry"
+			if s.IsIndex {
+				kind = "index"
+			}
+			j.Violations = append(j.Violations, Violation{Prop: "C06", Rule: "forbidden-store", Seq: s.Seq, Client: clientOf(e), Op: s.OwnerOp,
+				Msg: fmt.Sprintf("the body of origin response sid=%d (%s %s -> %d) could not be read completely, yet its exchange wrote the %s key %q (len %d)", o.SID, o.Req.Method, o.Req.URL, o.Status, kind, s.Key, len(s.Val)),
+				Sig: "forbidden-store:body-incomplete+" + kind})
+			break
 		}
 	}
 }
